@@ -226,17 +226,36 @@ func (c *ShipConnection) endHandshakeWithError(err error) {
 
 // set the handshake timer to a new duration and start the channel
 func (c *ShipConnection) setHandshakeTimer(timerType timeoutTimerType, duration time.Duration) {
-	c.stopHandshakeTimer()
+	c.handshakeTimerMux.Lock()
+	defer c.handshakeTimerMux.Unlock()
 
-	c.setHandshakeTimerRunning(true)
-	c.setHandshakeTimerType(timerType)
+	// stop a previously armed timer, it is replaced by this one
+	if c.handshakeTimerStopChan != nil {
+		close(c.handshakeTimerStopChan)
+	}
+
+	// every armed timer gets its own stop channel, so stopping can not be lost
+	// and can not be consumed by an older timer goroutine
+	stopChan := make(chan struct{})
+	c.handshakeTimerStopChan = stopChan
+	c.handshakeTimerRunning = true
+	c.handshakeTimerType = timerType
 
 	go func() {
 		select {
-		case <-c.handshakeTimerStopChan:
+		case <-stopChan:
 			return
 		case <-time.After(duration):
-			c.setHandshakeTimerRunning(false)
+			// only the most recently armed timer may fire, and only if it was not stopped
+			c.handshakeTimerMux.Lock()
+			if c.handshakeTimerStopChan != stopChan {
+				c.handshakeTimerMux.Unlock()
+				return
+			}
+			c.handshakeTimerStopChan = nil
+			c.handshakeTimerRunning = false
+			c.handshakeTimerMux.Unlock()
+
 			c.handleState(true, nil)
 			return
 		}
@@ -245,15 +264,14 @@ func (c *ShipConnection) setHandshakeTimer(timerType timeoutTimerType, duration 
 
 // stop the handshake timer and close the channel
 func (c *ShipConnection) stopHandshakeTimer() {
-	if !c.getHandshakeTimerRunning() {
-		return
-	}
+	c.handshakeTimerMux.Lock()
+	defer c.handshakeTimerMux.Unlock()
 
-	select {
-	case c.handshakeTimerStopChan <- struct{}{}:
-	default:
+	if c.handshakeTimerStopChan != nil {
+		close(c.handshakeTimerStopChan)
+		c.handshakeTimerStopChan = nil
 	}
-	c.setHandshakeTimerRunning(false)
+	c.handshakeTimerRunning = false
 }
 
 func (c *ShipConnection) setHandshakeTimerRunning(value bool) {
